@@ -499,10 +499,134 @@ func (d *Decls) BytesLit(b []byte) *Term {
 	return d.Const(name, SBytes)
 }
 
+// symbolsOf returns the identifiers of an S-expression string that are declared names.
+func (d *Decls) symbolsOf(s string, into map[string]bool) {
+	start := -1
+	for i := 0; i <= len(s); i++ {
+		var c byte = ' '
+		if i < len(s) {
+			c = s[i]
+		}
+		if c == '(' || c == ')' || c == ' ' || c == '\n' || c == '\t' {
+			if start >= 0 {
+				tok := s[start:i]
+				if _, ok := d.seen[tok]; ok {
+					into[tok] = true
+				}
+				start = -1
+			}
+			continue
+		}
+		if start < 0 {
+			start = i
+		}
+	}
+}
+
+// DumpFor prints the declarations plus only those axioms that can be triggered by the given text: an axiom is
+// kept when every declared symbol of (one of) its patterns occurs in the text or in an axiom already kept
+// (axioms without a pattern are kept when they share a symbol). Dropping an axiom only weakens the hypotheses.
+func (d *Decls) DumpFor(text string) string {
+	d.mu.Lock()
+	defer d.mu.Unlock()
+	syms := map[string]bool{}
+	d.symbolsOf(text, syms)
+	type ax struct {
+		text string
+		pats []map[string]bool
+		all  map[string]bool
+		kept bool
+	}
+	var axs []*ax
+	for _, a := range d.axioms {
+		x := &ax{text: a, all: map[string]bool{}}
+		d.symbolsOf(a, x.all)
+		rest := a
+		for {
+			i := strings.Index(rest, ":pattern (")
+			if i < 0 {
+				break
+			}
+			rest = rest[i+len(":pattern "):]
+			// balanced parenthesis group
+			depth, j := 0, 0
+			for j = 0; j < len(rest); j++ {
+				if rest[j] == '(' {
+					depth++
+				} else if rest[j] == ')' {
+					depth--
+					if depth == 0 {
+						break
+					}
+				}
+			}
+			ps := map[string]bool{}
+			d.symbolsOf(rest[:j+1], ps)
+			x.pats = append(x.pats, ps)
+			rest = rest[j:]
+		}
+		axs = append(axs, x)
+	}
+	for changed := true; changed; {
+		changed = false
+		for _, x := range axs {
+			if x.kept {
+				continue
+			}
+			keep := false
+			if len(x.pats) == 0 {
+				for s := range x.all {
+					if syms[s] {
+						keep = true
+					}
+				}
+				if len(x.all) == 0 {
+					keep = true
+				}
+			}
+			for _, p := range x.pats {
+				ok := true
+				for s := range p {
+					if !syms[s] {
+						ok = false
+					}
+				}
+				if ok {
+					keep = true
+				}
+			}
+			if keep {
+				x.kept = true
+				changed = true
+				for s := range x.all {
+					syms[s] = true
+				}
+			}
+		}
+	}
+	var b strings.Builder
+	d.dumpDecls(&b)
+	for _, x := range axs {
+		if x.kept {
+			b.WriteString("(assert " + x.text + ")\n")
+		}
+	}
+	return b.String()
+}
+
 func (d *Decls) Dump() string {
 	d.mu.Lock()
 	defer d.mu.Unlock()
 	var b strings.Builder
+	d.dumpDecls(&b)
+	for _, a := range d.axioms {
+		b.WriteString("(assert " + a + ")\n")
+	}
+	return b.String()
+}
+
+func (d *Decls) dumpDecls(bp *strings.Builder) {
+	b := bp
 	for _, n := range d.order {
 		b.WriteString(d.seen[n])
 		b.WriteByte('\n')
@@ -526,8 +650,4 @@ func (d *Decls) Dump() string {
 			b.WriteString("(assert (distinct " + strings.Join(names, " ") + "))\n")
 		}
 	}
-	for _, a := range d.axioms {
-		b.WriteString("(assert " + a + ")\n")
-	}
-	return b.String()
 }
